@@ -1,8 +1,8 @@
 /-
-The disk index loader (EXPERIMENTAL in the library): what can be proved of it.  Its iterator — hence the
-full `Scan` and verification on load — is correct whenever no index record embeds the bytes of a complete
-valid record (`NoPhantom`); its point lookups and range scans are not (see the counterexamples in
-SST/Props/C03.lean).
+The disk index loader (EXPERIMENTAL in the library), part 1: its iterator — hence the full `Scan` and
+verification on load — is correct whenever no index record embeds the bytes of a complete valid record
+(`NoPhantom`).  Part 2 (point lookups, ScanStartingAt, ScanRange, the offset cache) is
+SST/Proofs/SSTableDiskLookup.lean; the phantom counterexample is in SST/Props/C03.lean.
 -/
 import SST.Proofs.SSTableReader
 import SST.Proofs.RecordIOSeek
